@@ -6,8 +6,8 @@ from common import *
 from pipeline import run_pipeline
 
 TIERS = {
-    "quick": dict(mc=[("MC_SampleCache_q_all.cfg", 8), ("MC_SampleCache_q_d1.cfg", 8), ("MC_SampleCache_q_bad.cfg", 4)], replay_limit=6000, random=dict(runs=400, events=30)),
-    "thorough": dict(mc=[("MC_SampleCache_t_all.cfg", 12), ("MC_SampleCache_t_d2.cfg", 12), ("MC_SampleCache_t_bad.cfg", 12), ("MC_SampleCache_q_d1.cfg", 8)], replay_limit=80000, random=dict(runs=6000, events=40)),
+    "quick": dict(mc=[("MC_SampleCache_q_all.cfg", 8), ("MC_SampleCache_q_d1.cfg", 8), ("MC_SampleCache_q_two.cfg", 8), ("MC_SampleCache_q_rtx.cfg", 8), ("MC_SampleCache_q_bad.cfg", 4)], replay_limit=9000, random=dict(runs=400, events=30)),
+    "thorough": dict(mc=[("MC_SampleCache_t_all.cfg", 12), ("MC_SampleCache_t_d2.cfg", 12), ("MC_SampleCache_t_bad.cfg", 12), ("MC_SampleCache_q_d1.cfg", 8), ("MC_SampleCache_q_two.cfg", 8), ("MC_SampleCache_q_rtx.cfg", 8)], replay_limit=80000, random=dict(runs=6000, events=40)),
 }
 ASSUME = [
     "state space bounded by the constants in spec/MC_SampleCache_*.cfg (instances, writers, arrivals, calls, forms, History depth); in the model arrivals are in order per writer and the reader is best-effort, so hand-over order = reception order",
